@@ -102,6 +102,14 @@ func cbrtCase(t *mon.T, which string, c dec.Ctx, x dec.D) {
 		if fits {
 			t.Count("class/perfect-cube")
 			t.Nontrivial(fmt.Sprintf("cbrt|%s|%s", c, x.FullString()))
+			if which == "exact-flags" {
+				if exact := dec.SameValue(o.Res, root); exact == (o.Flags&apd.Inexact != 0) {
+					d := detail("cbrt", c, x, dec.D{}, o, "Inexact must be raised exactly when the returned value differs from the exact root")
+					d["exact_root"] = root.FullString()
+					t.Fail("flags-mismatch", d)
+				}
+				return
+			}
 			if !dec.SameValue(o.Res, root) {
 				d := detail("cbrt", c, x, dec.D{}, o, "perfect cube whose root fits the precision not returned exactly")
 				d["expected"] = root.FullString()
@@ -112,6 +120,9 @@ func cbrtCase(t *mon.T, which string, c dec.Ctx, x dec.D) {
 			}
 			return
 		}
+	}
+	if which == "exact-flags" {
+		return
 	}
 	if o.Res.Form != dec.Finite {
 		if adjRoot >= c.Emax {
@@ -231,6 +242,53 @@ func registerSqrtWitness(r *mon.Run) {
 	})
 }
 
+// perfectCubeVolumeCase: see the comment at its registration in runC11 (also
+// registered by C02: a perfect cube whose root fits must not be flagged Inexact).
+func perfectCubeVolumeCase(t *mon.T) { perfectCubeVolume(t, "value") }
+
+// perfectCubeFlagsCase is the C02 reading: Inexact exactly when the returned
+// value is not the exact root (the value itself is C11's business).
+func perfectCubeFlagsCase(t *mon.T) { perfectCubeVolume(t, "exact-flags") }
+
+func perfectCubeVolume(t *mon.T, which string) {
+	rr := t.Rng
+	c := gen.Context(rr)
+	c.P = int64(1 + rr.Intn(24))
+	if rr.Chance(1, 8) {
+		c.P = int64(25 + rr.Intn(20))
+	}
+	nd := int64(1 + rr.Intn(int(c.P)))
+	var root *big.Int
+	switch rr.Intn(4) {
+	case 0, 1: // 1.00x: 10^(nd-1) plus something short
+		root = new(big.Int).Set(dec.Pow10(nd - 1))
+		k := int64(1 + rr.Intn(int(nd)))
+		add, _ := new(big.Int).SetString(gen.Digits(rr, k), 10)
+		root.Add(root, add.Mod(add, new(big.Int).Add(dec.Pow10(nd-1), bOne)))
+	case 2: // 9.99x
+		root = new(big.Int).Set(dec.Pow10(nd))
+		k := int64(1 + rr.Intn(int(nd)))
+		sub, _ := new(big.Int).SetString(gen.Digits(rr, k), 10)
+		root.Sub(root, sub.Mod(sub, dec.Pow10(nd-1)))
+		root.Sub(root, bOne)
+	default:
+		root, _ = new(big.Int).SetString(gen.Digits(rr, nd), 10)
+	}
+	if root.Sign() <= 0 {
+		root = big.NewInt(1 + int64(rr.Intn(999)))
+	}
+	e := 3 * rr.Range(-12, 12)
+	if c.Emax < 60 {
+		c.Emax = 60 + c.P
+	}
+	if c.Emin > -60 {
+		c.Emin = -60
+	}
+	x := dec.D{Form: dec.Finite, Neg: rr.Bool(), C: new(big.Int).Mul(new(big.Int).Mul(root, root), root), E: e}
+	cbrtCase(t, which, c, x)
+	t.Count("cbrt/perfect-cube-volume")
+}
+
 func runC11(r *mon.Run) {
 	r.Rule = "cases: Sqrt and Cbrt on random operands of 1..3p digits with odd/even exponents, perfect squares/cubes and their +/-1 " +
 		"neighbours, constructed hard cases x = r^2 +/- k with r adjacent to a tie or to a representable value, and a stratum at precisions of 16000..45000 digits and around 65536. Sqrt oracle: " +
@@ -257,6 +315,13 @@ func runC11(r *mon.Run) {
 		}
 		cbrtCase(t, "value", c, cbrtOperand(t.Rng, c))
 	})
+	// perfect cubes in volume: whether the iteration lands on the root exactly
+	// depends on the particular root and precision (one pair in 10^5 or fewer
+	// behaves differently from its neighbours), most often for roots just
+	// above a power of ten; so many roots, at every precision from their own
+	// length up, rather than a few boundary shapes
+	r.Parallel("cbrt-perfect-cubes", r.N(400000, 20000000), perfectCubeVolumeCase)
+	r.Require("cbrt/perfect-cube-volume", 300000)
 	r.Parallel("sqrt-huge-precision", r.N(200, 6000), func(t *mon.T) {
 		// working precisions in the tens of thousands of digits (an
 		// implementation may switch algorithms by size): short operands whose root
